@@ -27,7 +27,9 @@ LEVEL_NOTE = 'Trusted: the path grammar in mc/harness._components / refpath belo
 ASSUMPTIONS = []
 
 ALPHA = ["'", '/', ' ', 'a']
-EXTRA = ['é', '日本', '😀', 'é', 'עברית', "/'a'/'b'", "a''", 'A', 'a\n']
+EXTRA = ['\u00e9', '日本', '😀', 'e\u0301', 'עברית', "/'a'/'b'", "a''", 'A', 'a\n',
+         # canonically equivalent spellings are different names: OHM SIGN / GREEK OMEGA, A + COMBINING RING / A WITH RING, a path-like name next to the object it spells
+         '\u2126', '\u03a9', 'A\u030a', '\u00c5', "/'a'", "/'a'/'a'"]
 
 
 def strings(maxlen):
